@@ -768,6 +768,7 @@ func runC13(c *core.Ctx) core.Meta {
 
 	checkRaiseOnlyUpdates(c)
 	checkDynamicLDSPlacement(c)
+	checkRsrcAccessors(c)
 
 	return core.Meta{Level: "other",
 		Explanation: "Loading decided against an external oracle, the published amd_kernel_code_t and kernel_descriptor_t layouts transcribed as offset/width tables: every metadata read of both parsers and of the header sniffer is compared with its table row (offset, width, slice width, flag bit), bounds of the parsers against what their callers establish, precedence of the V5 descriptor over header sniffing, stripping only under a positive sniff, kernel bytes = the named symbol's range of .text, descriptor selected by name+\".kd\", size 64, inside .rodata.",
@@ -1027,6 +1028,68 @@ func checkDynamicLDSPlacement(c *core.Ctx) {
 					}
 				}
 			}
+		}
+	}
+}
+
+// rsrcFields: the fields of compute_pgm_rsrc1 / compute_pgm_rsrc2 that the metadata accessors
+// return, with the bit range the LLVM AMDGPU usage document gives them (both code-object layouts
+// use the same two words).
+var rsrcFields = map[string]struct {
+	word   string
+	lo, hi int64
+}{
+	"WorkItemVgprCount":                      {"ComputePgmRsrc1", 0, 5},
+	"WavefrontSgprCount":                     {"ComputePgmRsrc1", 6, 9},
+	"Priority":                               {"ComputePgmRsrc1", 10, 11},
+	"EnableSgprPrivateSegmentWaveByteOffset": {"ComputePgmRsrc2", 0, 0},
+	"UserSgprCount":                          {"ComputePgmRsrc2", 1, 5},
+	"EnableSgprWorkGroupIDX":                 {"ComputePgmRsrc2", 7, 7},
+	"EnableSgprWorkGroupIDY":                 {"ComputePgmRsrc2", 8, 8},
+	"EnableSgprWorkGroupIDZ":                 {"ComputePgmRsrc2", 9, 9},
+	"EnableSgprWorkGroupInfo":                {"ComputePgmRsrc2", 10, 10},
+	"EnableVgprWorkItemID":                   {"ComputePgmRsrc2", 11, 12},
+	"EnableExceptionAddressWatch":            {"ComputePgmRsrc2", 13, 13},
+	"EnableExceptionMemoryViolation":         {"ComputePgmRsrc2", 14, 14},
+}
+
+// checkRsrcAccessors (R13.9): the accessors of KernelCodeObjectMeta that decode the two resource
+// words return the published bit range of the published word. The words themselves are loaded
+// verbatim (R13.1); what the dispatchers and the emulator learn about enabled registers and
+// work-item ids comes through these accessors.
+func checkRsrcAccessors(c *core.Ctx) {
+	st := c.Rule("R13.9", "the accessors of KernelCodeObjectMeta that decode compute_pgm_rsrc1 / compute_pgm_rsrc2 (register granules, user SGPR count, enabled work-group id SGPRs, enabled work-item id VGPRs, exception enables) extract the bit range the published layout gives the field from the word it lies in: each is a single extractBits(word, lo, hi) whose three arguments are compared with a transcribed table. A one-bit read of the two-bit enable_vgpr_workitem_id reports a kernel that uses get_local_id(2) as using X only; v1 and v2 are then never initialised", 10)
+	for name, want := range rsrcFields {
+		fn := c.SSAFunc(instsPkg, "KernelCodeObjectMeta."+name)
+		if fn == nil {
+			continue
+		}
+		st.Instances++
+		c.MarkAnalysed(fn)
+		found := false
+		for _, b := range fn.Blocks {
+			for _, in := range b.Instrs {
+				call, ok := in.(*ssa.Call)
+				if !ok || call.Call.StaticCallee() == nil || call.Call.StaticCallee().Name() != "extractBits" || len(call.Call.Args) != 3 {
+					continue
+				}
+				found = true
+				word := ""
+				if f := core.LoadedField(call.Call.Args[0]); f != nil {
+					word = f.Name()
+				}
+				lo, ok1 := core.ConstInt(call.Call.Args[1])
+				hi, ok2 := core.ConstInt(call.Call.Args[2])
+				ok = ok1 && ok2 && word == want.word && lo == want.lo && hi == want.hi
+				st.Ob(ok)
+				if !ok {
+					c.ReportAt("R13.9", fn, call.Pos(), "rsrc-field:"+name, fmt.Sprintf("%s returns bits [%d:%d] of %s; the published layout has the field at bits [%d:%d] of %s", name, hi, lo, word, want.hi, want.lo, want.word))
+				}
+			}
+		}
+		if !found {
+			st.Ob(false)
+			c.Undecided("R13.9", fn, fn.Pos(), "rsrc-field:"+name, name+" no longer decodes its field with a single extractBits call; it cannot be compared with the table")
 		}
 	}
 }
